@@ -35,6 +35,7 @@ type config struct {
 	Cache     string
 	Entry     string
 	Query     bool // the points differ in nothing but their query string
+	PathCase  bool // the points differ in nothing but the letter case of their path
 }
 
 func scenario(c config, behs []string) *sims.Scenario {
@@ -43,6 +44,11 @@ func scenario(c config, behs []string) *sims.Scenario {
 	if c.Query {
 		for i := range sh.CRL {
 			sh.CRL[i] = "httpq"
+		}
+	}
+	if c.PathCase {
+		for i := range sh.CRL {
+			sh.CRL[i] = "httpc"
 		}
 	}
 	sh.Freshest = c.Freshest
@@ -276,7 +282,7 @@ func slowExpiry(r *core.Run, twoPoints bool) {
 }
 
 func run(r *core.Run) int {
-	r.Rule = "CRL behaviour alphabet assigned to 1..3 distribution points in every order x {caller-supplied fetcher, real HTTPFetcher over the simulated network} x certificate with/without freshest-CRL extension x issuer with/without cRLSign x {EC, RSA issuer}; pairs of points that differ only in their query string (cache on/off); " +
+	r.Rule = "CRL behaviour alphabet assigned to 1..3 distribution points in every order x {caller-supplied fetcher, real HTTPFetcher over the simulated network} x certificate with/without freshest-CRL extension x issuer with/without cRLSign x {EC, RSA issuer}; pairs of points that differ only in their query string, or only in the letter case of their path (cache on/off); " +
 		"non-trivial = some point is not clean, or a delta is present, or the certificate carries a freshest-CRL pointer; distinct by scenario descriptor"
 	r.Assume("CRL nextUpdate instants are 2001 or 2096")
 	r.Assume("an unknown critical extension on an entry for ANOTHER serial admits both OK and Unknown (C10 says other serials never matter, C05 says no unknown critical extension at entry level)")
@@ -345,6 +351,7 @@ func run(r *core.Run) int {
 						continue
 					}
 					jobs = append(jobs, job{config{CAKind: "p256", Route: "http", Len: 2, Entry: "validate", Cache: cache, Query: true}, []string{a, b}})
+					jobs = append(jobs, job{config{CAKind: "p256", Route: "http", Len: 2, Entry: "validate", Cache: cache, PathCase: true}, []string{a, b}})
 				}
 			}
 		}
@@ -373,6 +380,9 @@ func run(r *core.Run) int {
 		}
 		if j.c.Query {
 			r.Count("query-distinguished-points", 1)
+		}
+		if j.c.PathCase {
+			r.Count("path-case-distinguished-points", 1)
 		}
 		if out.Panic == nil && len(out.Results) > 0 && out.Results[0] != nil {
 			r.Sample("result-"+out.Results[0].Result.String()+"-"+j.c.Route, map[string]any{"scenario": sc.Desc(), "result": sims.CanonString(sims.Canon(out.Results))})
